@@ -107,7 +107,8 @@ def install(ctx):
         wtot = float(data.sum())
         if scale:
             want, wtot = want / days, wtot / days
-        if not numpy.allclose(numpy.asarray(rates, dtype=float), want, rtol=1e-12, atol=0) or not close(float(total), wtot, rel=1e-12):
+        if numpy.shape(rates) != numpy.shape(want) or not numpy.allclose(numpy.asarray(rates, dtype=float), want, rtol=1e-12, atol=0) or \
+                not close(float(total), wtot, rel=1e-12):
             ctx.violate("per-event target rates / forecast total do not match the rates of the events' cells and bins", {"exec": "noop", "args": {}},
                         observed={"rates": numpy.asarray(rates)[:5], "total": float(total)}, expected={"rates": want[:5], "total": wtot},
                         tags={"api": "target_event_rates", "scale": bool(scale)})
@@ -218,6 +219,30 @@ def ex_pair(ctx, case, ratesB, alpha=0.05, scale=False, days=365, factors=(1.0, 
         if ok3 and abs(float(res3.observed_statistic)) > 1e-12:
             ctx.violate("a forecast compared with itself has non-zero information gain", rc, observed=float(res3.observed_statistic), expected=0.0,
                         tags=dict(tags, test="T", clause="self"))
+    # ---------------- history: the same forecast objects, the same catalog object filtered in place, evaluated again
+    keep = em >= 1
+    if ok and case["nmag"] >= 2 and 2 <= int(keep.sum()) < n:
+        mags_ = gridcases.fixtures.mag_bins(case["mag0"], case["dmag"], case["nmag"])
+        ec_c, em_c = cat._verif_cells
+        cat._verif_cells = (ec_c[em_c >= 1], em_c[em_c >= 1])          # the per-event annotation follows the (order-preserving) filter
+        okf, _r, tbf = ctx.call(cat.filter, "magnitude >= %r" % float(mags_[1]))
+        if okf and cat.event_count == int(keep.sum()):
+            x2 = [v for v, k_ in zip(x, keep.tolist()) if k_]
+            n2 = len(x2)
+            ctx.mon("history:catalog-filtered-in-place-between-evaluations", 1)
+            ok2, res2, tb2 = run(pe.paired_t_test, foreA, foreB, cat, alpha=alpha, scale=scale)
+            if not ok2:
+                ctx.violate("paired_t_test raised after the catalog was filtered in place", rc, observed=repr(res2), tb=tb2,
+                            tags=dict(tags, test="T", clause="raised", history="evaluate, filter catalog in place, evaluate again"))
+            else:
+                check_t(ctx, rc, dict(tags, test="T", history="evaluate, filter catalog in place, evaluate again"), res2, t_ref(x2, n2, na, nb, alpha))
+            w2 = w_ref(x2, (float(A.sum()) - float(B.sum())) / n2)
+            ok3, res3, tb3 = run(pe.w_test, foreA, foreB, cat, scale=scale)
+            if ok3 and w2 is not None and not (close(float(res3.observed_statistic), w2["z"], rel=1e-9, abs_=1e-12) and
+                                               close(float(res3.quantile), w2["p"], rel=1e-9, abs_=1e-12)):
+                ctx.violate("W-test z / p are not the tie-corrected signed-rank values about (N_A-N_B)/N", rc,
+                            observed={"z": float(res3.observed_statistic), "p": float(res3.quantile)}, expected=w2,
+                            tags=dict(tags, test="W", clause="value", history="evaluate, filter catalog in place, evaluate again"))
     # ---------------- W test
     foreA, foreB, cat, w = _build_pair(case, ratesB, start, end, factors)
     m = (na - nb) / n       # the library uses the unscaled totals; identical ratio when both are scaled
